@@ -12,7 +12,7 @@ def check(ctx, rep):
     m = W.WriterModel(ctx, rep)
     if not m.ok:
         return
-    W.rule_M1(m, rep)
+    W.rule_M1(m, rep, exact_fill_may_bypass=True)
     W.rule_M2(m, rep, 'only')
     W.rule_M2(m, rep, 'must')
     W.rule_M4_M5_M6(m, rep, want=('M5',))
